@@ -138,6 +138,18 @@ func genC06(r *Rng, tier string, idx int) *Plan {
 		c := r.Intn(nconn)
 		switch x := r.Intn(100); {
 		case x < 70:
+			if r.Chance(0.08) {
+				// commands whose keys play different roles (a source that is removed, a destination that is written):
+				// with different read and write globs each key is judged by its own role
+				var multi []*CmdSpec
+				for _, n := range []string{"RENAME", "RENAMENX", "SMOVE", "LMOVE", "COPY", "SDIFFSTORE", "SINTERSTORE", "SUNIONSTORE", "ZUNIONSTORE", "ZINTERSTORE", "GETEX", "GETDEL"} {
+					if sp := specByName[n]; sp != nil {
+						multi = append(multi, sp)
+					}
+				}
+				p.Ops = append(p.Ops, Op{C: c, Args: Pick(r, multi).Gen(r, g)})
+				break
+			}
 			p.Ops = append(p.Ops, Op{C: c, Args: g.Cmd(r)})
 		case x < 82:
 			ch := pickSome(r, c18Channels, 1, 2)
